@@ -7,6 +7,52 @@ from ..unitlib import run_unit_cases
 from ..tlc import MachineryError
 
 
+def extras_forward_mask(ctx, res):
+    """Beyond the listed properties (DESIGN.md section 10): lcm.state_space.create_forward_mask against
+    StateSpace!ForwardMask on seeded cases.  Reported in the evidence only; never a violation of C17."""
+    from .. import tlc, units
+    from ..mdl import q
+
+    rng = ctx.rng("fwdmask")
+    cases = []
+    for i in range(ctx.n(40, 400)):
+        nst = rng.randint(1, 3)
+        states = [f"s{k}" for k in range(nst)]
+        choices = [f"a{k}" for k in range(rng.randint(0, 2))]
+        names = states + choices
+        sizes = [rng.randint(2, 4) for _ in names]
+        rows = [{n: rng.randrange(s) for n, s in zip(names, sizes, strict=True)} for _ in range(rng.randint(1, 5))]
+        # per state: a usable transition table, a transition function whose argument is not available (it is ignored:
+        # every value of that state is admitted), or no transition function at all (the state is not an axis of the mask)
+        nxt, mstates, msizes = [], [], []
+        for k in range(nst):
+            u = rng.random()
+            if u < 0.15:
+                continue
+            mstates.append(states[k])
+            msizes.append(sizes[k])
+            if u < 0.35:
+                nxt.append({"args": ["-"], "tab": []})
+                continue
+            args = rng.sample(names, rng.randint(1, min(2, len(names))))
+            shape = [sizes[names.index(a)] for a in args]
+
+            def tab(d, sz=sizes[k]):
+                return q(rng.randrange(sz)) if not d else [tab(d[1:]) for _ in range(d[0])]
+            nxt.append({"args": args, "tab": tab(shape)})
+        if not mstates:
+            continue
+        cases.append({"cid": len(cases), "fn": "fwdmask", "names": names, "states": mstates, "allsizes": sizes, "sizes": msizes, "rows": rows,
+                      "nxt": nxt, "jit": i % 2 == 0, "missing_arg": True})
+    done = units.run_units(cases, chunk=20)
+    verdicts, st = tlc.validate_traces("TraceUnits", done)
+    agree = sum(1 for c in done if verdicts[c["cid"]]["v"][0] == "ok")
+    res.merge_cov(extras_forward_mask_cases=len(done), extras_forward_mask_agree=agree, states=st["distinct"], transitions=st["generated"])
+    if agree != len(done):
+        res.notes.append(f"create_forward_mask differs from StateSpace!ForwardMask on {len(done) - agree} of {len(done)} cases "
+                         "(outside the listed properties; not a violation)")
+
+
 def run(ctx: Ctx) -> Result:
     res = Result(ctx.prop)
     thorough = ctx.thorough
@@ -41,6 +87,7 @@ def run(ctx: Ctx) -> Result:
             cases.append({"cid": len(cases), "fn": "scs-mdl", "mdl": m, "period": t, "jit_filter": (i + t) % 4 == 0})
     run_unit_cases(ctx, res, cases, chunk=100, sample_keys=("fn", "sshape", "cshape", "mask", "mdl", "period"),
                    nontrivial=lambda c: c["fn"] == "scs-mdl" or (any(c["mask"]) and not all(c["mask"])))
+    extras_forward_mask(ctx, res)
     res.merge_cov(states=mc["distinct"], transitions=mc["generated"], mc_states=mc["distinct"],
                   masks_enumerated=len(gen_cases), exhaustive=bool(thorough),
                   samples=[{k: v for k, v in c.items() if k in ("fn", "sshape", "cshape", "mask", "period", "is_last", "jit_filter")}
